@@ -296,6 +296,18 @@ theorem c04_no_early_emit (cfg : Cfg) (hfix : cfg.skipAhead = true) (hp : 1 ≤ 
         exact ⟨by omega, ht⟩
     · exact ih _ (c04_inv_step cfg s0 e hi hok.1) hok.2 h
 
+/-- the configuration of the code as regenerated: the variant switch is the regenerated fact "there is a
+`if upon.Round > current.round { return }` guard before anything is signed" -/
+def codeCfg (period : Nat) (genesis : Int) (catchup : Nat) : Cfg := ⟨period, genesis, catchup, Gen.Handler.bnpSkipAhead⟩
+
+/-- the day the source carries the guard, the full statement holds for the code's own configuration -/
+theorem c04_code_no_early_emit (hsrc : Gen.Handler.bnpSkipAhead = true) (period : Nat) (genesis : Int) (catchup : Nat)
+    (hp : 1 ≤ period) (s0 : St) (hi : Inv (codeCfg period genesis catchup) s0) (evs : List Ev)
+    (hok : traceOk (codeCfg period genesis catchup) s0 evs = true)
+    (r : Nat) (clk : Int) (h : Out.emit r clk ∈ run (codeCfg period genesis catchup) s0 evs) :
+    1 ≤ r ∧ timeOf (codeCfg period genesis catchup) r ≤ clk :=
+  c04_no_early_emit (codeCfg period genesis catchup) hsrc hp s0 hi evs hok r clk h
+
 /-- The code as it is (any variant): the same conclusion under the hypothesis the proof forces — whenever a
 tick is processed the stored head is not ahead of the tick's round. -/
 theorem c04_no_early_emit_partial (cfg : Cfg) (hp : 1 ≤ cfg.period)
